@@ -12,4 +12,4 @@ BIN=/verif/bin/anndbcheck
 if [ ! -x "$BIN" ] || [ -n "$(find /verif/checker -name '*.go' -newer "$BIN" 2>/dev/null | head -1)" ]; then
   (cd /verif/checker && go build -o "$BIN" .) || { echo "cannot build the analyser"; exit 2; }
 fi
-exec "$BIN" -repo "$REPO" -verif /verif -prop "$PROP" -tier "$TIER" -seed "${VERIF_SEED:-0}"
+exec "$BIN" -repo "$REPO" -verif /verif ${VERIF_OUT:+-out "$VERIF_OUT"} -prop "$PROP" -tier "$TIER" -seed "${VERIF_SEED:-0}"
